@@ -90,7 +90,7 @@ func (fr *Frame) checkEnsures(st *State, ret *ssa.Return, result Val) {
 	extra := fr.resultNames(result)
 	_ = r
 	for i, c := range fr.contract.Ensures {
-		fr.requireExpr(st, "ensures", fr.fname, c.Label(fmt.Sprintf("#%d", i+1))+"@"+fr.anchorName(ret, "return"), c.Expr, extra, c.Tags, ret.Pos(), c.Text)
+		fr.requireExpr(st, "ensures", fr.fname, fmt.Sprintf("%s(%d)@%s", c.Label("ensures"), i+1, fr.anchorName(ret, "return")), c.Expr, extra, c.Tags, ret.Pos(), c.Text)
 	}
 }
 
@@ -344,6 +344,13 @@ func (fr *Frame) applyContract(st *State, ins ssa.Instruction, fc *FuncContract,
 			fr.maybeCall(st, v, true)
 		}
 	}
+	// the callee may allocate: bump the heap counter first so that values havoced below
+	// (which are assumed to be existing references) may refer to the callee's new objects
+	if fc.Flags["allocates"] != nil || !fc.Extern {
+		old := r.get(st, "g|$heap")
+		r.havocKey(st, "g|$heap")
+		r.facts.Assert(fmt.Sprintf("(>= %s %s)", st.mem["g|$heap"], old))
+	}
 	// modifies
 	if fc.HasModifies {
 		for _, m := range fc.Modifies {
@@ -359,11 +366,6 @@ func (fr *Frame) applyContract(st *State, ins ssa.Instruction, fc *FuncContract,
 		for name := range r.eng.cs.Ghosts {
 			r.havocKey(st, "g|"+name)
 		}
-	}
-	if fc.Flags["allocates"] != nil || !fc.Extern {
-		old := r.get(st, "g|$heap")
-		r.havocKey(st, "g|$heap")
-		r.facts.Assert(fmt.Sprintf("(>= %s %s)", st.mem["g|$heap"], old))
 	}
 	// result
 	var res Val
@@ -396,6 +398,9 @@ func (fr *Frame) applyContract(st *State, ins ssa.Instruction, fc *FuncContract,
 		}
 	}
 	for _, en := range fc.Ensures {
+		if hasTag(en.Tags, "internal") {
+			continue // speaks about the callee's internal ghost values; proved there, not used by callers
+		}
 		v, err := cf.eval(st, en.Expr, extra)
 		if err != nil {
 			r.note(fmt.Sprintf("contract %s: ensures %q: %v", name, en.Text, err))
@@ -444,6 +449,9 @@ func (fr *Frame) havocLvalue(st *State, e *Expr) error {
 		if e.Name == "heap" {
 			fr.havocHeap(st)
 			return nil
+		}
+		if e.Name == "heap_fresh" {
+			return nil // the callee allocates and initialises only objects of its own
 		}
 	}
 	if e.Op == "call" {
@@ -600,6 +608,11 @@ func (fr *Frame) havocAll(st *State) {
 func (fr *Frame) defaultCall(st *State, name string, callee *ssa.Function, sig *types.Signature, recv *Val, args []Val, c *ssa.CallCommon) Val {
 	r := fr.r
 	r.defaulted[name] = true
+	{
+		old := r.get(st, "g|$heap")
+		r.havocKey(st, "g|$heap")
+		r.facts.Assert(fmt.Sprintf("(>= %s %s)", st.mem["g|$heap"], old))
+	}
 	for i, a := range args {
 		var at types.Type
 		if i < len(c.Args) {
@@ -626,9 +639,6 @@ func (fr *Frame) defaultCall(st *State, name string, callee *ssa.Function, sig *
 			}
 		}
 	}
-	old := r.get(st, "g|$heap")
-	r.havocKey(st, "g|$heap")
-	r.facts.Assert(fmt.Sprintf("(>= %s %s)", st.mem["g|$heap"], old))
 	res := r.freshVal("res", sig.Results(), st)
 	if sig.Results().Len() == 1 && res.K == KTuple {
 		res = res.Fs[0]
@@ -913,6 +923,9 @@ func (fr *Frame) frameDecls(entry *State) (decls []frameDecl, skipHeap bool) {
 			}
 			if e.Name == "everything" || e.Name == "heap" {
 				skipHeap = true
+				continue
+			}
+			if e.Name == "heap_fresh" {
 				continue
 			}
 		}
